@@ -310,9 +310,17 @@ func (b *byzantine) rewriteBatch(src *node, ms []outMsg) []routed {
 			alt := codec.BC.MustMarshalToBytes(pm)
 			for _, d := range others() {
 				mm := m
-				if t.Permille("byz.prop.alt", 500) {
+				switch t.Weighted("byz.prop.alt", 2, 2, 1) {
+				case 1:
 					mm.data = alt
 					s.rc.Fault("byz_conflicting_proposal_sent")
+				case 2:
+					// both proposals to the same validator: it holds double-sign evidence against the proposer
+					am := m
+					am.data = alt
+					out = append(out, routed{d, am})
+					s.rc.Fault("byz_conflicting_proposal_sent")
+					s.rc.Fault("byz_both_proposals_to_one_validator")
 				}
 				out = append(out, routed{d, mm})
 			}
@@ -583,6 +591,19 @@ func (b *byzantine) maybeForge(src *node, ms []outMsg, out *[]routed) []outMsg {
 	forgedBytes, info := b.forgeBlock(src, hf, bf, orig)
 	if forgedBytes == nil {
 		return ms
+	}
+	if b.forge == "C08" {
+		s.decodeForged(forgedBytes, info.kind)
+		// a storm of further mutations of the same genuine block goes to the decoders directly (they need not
+		// be proposed to be decoder input): two dozen per forging opportunity
+		for i := 0; i < 24 && !s.rc.Failed(); i++ {
+			if fb, fi := b.forgeBlock(src, hf, bf, orig); fb != nil {
+				s.decodeForged(fb, fi.kind)
+			}
+		}
+		if s.rc.Failed() {
+			return ms
+		}
 	}
 	psb := consensus.NewPartSetBuffer(consensus.ConfigBlockPartSize)
 	_, _ = psb.Write(forgedBytes)
@@ -1174,14 +1195,50 @@ func (b *byzantine) evidenceTick() {
 		}
 		_, other = b.craftVote(w, h, r, vt, bid, p0, ts+1)
 	}
+	dst := module.DSTVote
+	if t.Permille("ev.proposal", 350) {
+		// the same relations for pairs of proposals
+		dst = module.DSTProposal
+		mk := func(w module.Wallet, h int64, r int32, hash byte, pol int32, nid uint32) []byte {
+			pm := consensus.NewProposalMessage()
+			pm.Height, pm.Round, pm.POLRound, pm.NID = h, r, pol, nid
+			pm.BlockPartSetID = &consensus.PartSetID{Count: 1, Hash: bytes.Repeat([]byte{hash}, 32)}
+			if pm.Sign(w) != nil {
+				return nil
+			}
+			return codec.BC.MustMarshalToBytes(pm)
+		}
+		base = mk(w, h, r, 0x11, -1, 1)
+		rel = []string{"genuine", "identical", "other-round", "other-height", "other-signer", "other-network-nil", "unspecified-network", "genuine-pol-round-differs"}[t.Choose("ev.prel", 8)]
+		switch rel {
+		case "genuine":
+			other = mk(w, h, r, 0x22, -1, 1)
+		case "identical":
+			other = base
+		case "other-round":
+			other = mk(w, h, r+1, 0x22, -1, 1)
+		case "other-height":
+			other = mk(w, h+1, r, 0x22, -1, 1)
+		case "other-signer":
+			other = mk(s.newWallet("ev.key"), h, r, 0x22, -1, 1)
+		case "other-network-nil":
+			other = mk(w, h, r, 0x22, -1, 2)
+		case "unspecified-network":
+			other = mk(w, h, r, 0x22, -1, 0)
+		case "genuine-pol-round-differs":
+			other = mk(w, h, r+2, 0x11, 0, 1)
+			base = mk(w, h, r+2, 0x11, 1, 1)
+		}
+		rel = "proposal/" + rel
+	}
 	if base == nil || other == nil {
 		return
 	}
 	if t.Permille("ev.swap", 500) {
 		base, other = other, base
 	}
-	d0, err0 := consensus.DecodeDoubleSignData(module.DSTVote, base)
-	d1, err1 := consensus.DecodeDoubleSignData(module.DSTVote, other)
+	d0, err0 := consensus.DecodeDoubleSignData(dst, base)
+	d1, err1 := consensus.DecodeDoubleSignData(dst, other)
 	s.rc.Probe("evidence_pair_submitted:" + rel)
 	if err0 != nil || err1 != nil {
 		return
